@@ -191,8 +191,9 @@ def header_text(rng, m, binary, arith, cov):
     L.append(' %d %d' % (m.nv and r.randint(0, m.nv), m.nv and r.randint(0, m.nv)) + (' %d' % (m.nv and r.randint(0, m.nv)) if both else ''))
     l6 = ' 0 %d' % m.nf
     if binary:
+        fl_ = r.random()
         if arith is not None:
-            l6 += ' %d' % arith + (' 1' if r.random() < 0.7 else '')
+            l6 += ' %d' % arith + (' 1' if fl_ < 0.7 else '')
     else:
         q = r.random()
         l6 += ' 0 1' if q < 0.6 else '' if q < 0.8 else ' 0' if q < 0.9 else ' %d 0' % r.randint(0, 5)
@@ -393,7 +394,8 @@ def gen_valid(rng, T, mode, cov):
     big = mode == 'binswap'
     arith = None
     if binary:
-        arith = 2 if big else r.choice([1, 1, None])
+        a_ = r.choice([1, 1, None])     # drawn in both byte orders so that twins stay in step
+        arith = 2 if big else a_
     hl = header_text(r, m, binary, arith, cov)
     hdr = ('\n'.join(hl) + '\n').encode()
     w = W(r, binary, big)
@@ -539,3 +541,88 @@ FIXED = [
     b'b3 1 1 0\n 0 0 0\n 0 0\n 0 0\n 0 0\n 0 0 3\n 0 0\n 0 0\n 0 0\n 0 0 0 0 0\nb',
     b'b3 1 1 0\n 0 0 0\n 0 0\n 0 0\n 0 0\n 0 0 6\n 0 0\n 0 0\n 0 0\n 0 0 0 0 0\nb',
 ]
+
+
+# ----------------------------------------------------------------------------- hostile-count family
+HOSTILE_COUNTS = [-1, -2, -3, -4, -5, -100, -INT_MAX - 1, INT_MAX, INT_MAX - 1, 1000000, 65536, 0, 1, 2, 3, 4, 5]
+
+
+def hostile_count_family(T):
+    """Deterministic family: every count-announcing construct x hostile count x {text, bin, binswap}.
+    The problem is tiny (so the mp::Problem run is always made) and otherwise valid; three valid items
+    follow the hostile count, then a `b` segment.  yields (mode, bytes, tag)"""
+    import random as _r
+    hdr_body = [' 3 2 1 0 0 1', ' 1 1', ' 0 0', ' 3 3 3', None, ' 0 0 0 0 0', ' 6 6', ' 0 0', ' 1 0 0 0 0']
+    S = T.single
+    constructs = ['call', 'sum', 'vararg', 'count', 'numberof', 'numberof_sym', 'iterlog', 'pairwise', 'plterm',
+                  'lcount', 'J', 'G', 'V', 'S', 'Sdbl', 'x', 'd', 'K', 'k', 'string']
+    for mode in ('text', 'bin', 'binswap'):
+        binary, big = mode != 'text', mode == 'binswap'
+        for cons in constructs:
+            for c in HOSTILE_COUNTS:
+                w = W(_r.Random(1), binary, big)
+                w._sep = (lambda w=w: (w.out.extend(b' ') if not w.binary and not w.fresh else None, setattr(w, 'fresh', False))[1])
+                w.eol = (lambda w=w: (w.out.extend(b'\n') if not w.binary else None, setattr(w, 'fresh', True))[1])
+                l6 = ' 0 1' + ((' 2 1' if big else ' 1 1') if binary else ' 0 1')
+                lines = [('b' if binary else 'g') + '3 1 1 0'] + [l6 if x is None else x for x in hdr_body]
+                w.raw(('\n'.join(lines) + '\n').encode())
+                w.ch('F'); w.uint(0); w.uint(0); w.int32(-1); w.name(b'foo'); w.eol()
+                def num(v=1.5):
+                    w.ch('n'); w.dbl(v); w.eol()
+                def op(o):
+                    w.ch('o'); w.uint(o); w.eol()
+                if cons in ('call', 'sum', 'vararg', 'count', 'numberof', 'numberof_sym', 'plterm', 'string'):
+                    w.ch('C'); w.uint(0); w.eol()
+                    if cons == 'call':
+                        w.ch('f'); w.uint(0); w.uint(c); w.eol()
+                        for _ in range(3): num()
+                    elif cons == 'string':
+                        op(S['NUMBEROF_SYM'][0]); w.uint(2); w.eol()
+                        w.ch('h')
+                        if binary:
+                            w.uint(c); w.raw(b'abc')
+                        else:
+                            w.raw(str(c).encode() + b':abc\n'); w.fresh = True
+                        num()
+                    elif cons == 'plterm':
+                        op(S['PLTERM'][0]); w.uint(c); w.eol()
+                        for _ in range(3): num()
+                        w.ch('v'); w.uint(0); w.eol()
+                    else:
+                        o = {'sum': S['SUM'][0], 'vararg': T.vararg[0], 'count': S['COUNT'][0],
+                             'numberof': S['NUMBEROF'][0], 'numberof_sym': S['NUMBEROF_SYM'][0]}[cons]
+                        op(o); w.uint(c); w.eol()
+                        for _ in range(3): num()
+                elif cons in ('iterlog', 'pairwise', 'lcount'):
+                    w.ch('L'); w.uint(0); w.eol()
+                    if cons == 'lcount':
+                        op(T.lcount[0]); num(); op(S['COUNT'][0]); w.uint(c); w.eol()
+                    else:
+                        op(T.iterlog[0] if cons == 'iterlog' else T.pairwise[0]); w.uint(c); w.eol()
+                    for _ in range(3): num()
+                elif cons in ('J', 'G'):
+                    w.ch(cons); w.uint(0); w.uint(c); w.eol()
+                    for i in range(3):
+                        w.uint(i); w.dbl(2.0); w.eol()
+                elif cons == 'V':
+                    w.ch('V'); w.uint(3); w.uint(c); w.uint(0); w.eol()
+                    for i in range(3):
+                        w.uint(i); w.dbl(2.0); w.eol()
+                    num()
+                elif cons in ('S', 'Sdbl'):
+                    w.ch('S'); w.uint(4 if cons == 'Sdbl' else 0); w.uint(c); w.name(b'sfx'); w.eol()
+                    for i in range(3):
+                        w.uint(i)
+                        (w.dbl(1.0) if cons == 'Sdbl' else w.int32(7)); w.eol()
+                elif cons in ('x', 'd'):
+                    w.ch(cons); w.uint(c); w.eol()
+                    for i in range(2):
+                        w.uint(i); w.dbl(1.0); w.eol()
+                elif cons in ('K', 'k'):
+                    w.ch(cons); w.uint(c); w.eol()
+                    for i in range(2):
+                        w.uint(i + 1); w.eol()
+                w.ch('b'); w.eol()
+                for _ in range(3):
+                    w.ch('3'); w.eol()
+                yield mode, bytes(w.out), 'hostile-count-%s' % cons
